@@ -190,13 +190,6 @@ func c26Pair(t *rapid.T) (a, b gen.MV, cls string) {
 	return
 }
 
-func abs64(n int64) int64 {
-	if n < 0 {
-		return -n
-	}
-	return n
-}
-
 func addClamp(n, d int64) int64 {
 	return clampInt64(new(big.Int).Add(big.NewInt(n), big.NewInt(d)))
 }
